@@ -1,7 +1,6 @@
 //! C01/C02/C04/C10: whole string tokens (parser/strings.rs: basic_string, literal_string,
 //! ml_basic_string, ml_literal_string) against the reference decoders, delimiters concrete and
 //! the body symbolic
-use crate::h_position::stub_from_utf8;
 use crate::util::*;
 use refmodel::strings::*;
 use refmodel::Buf;
